@@ -34,6 +34,8 @@ type c20Open struct {
 	// Hold: the stream stays open (source and initiator idle) while the following opens run; it is ended after the
 	// last arbitrary open - overlapping streams share the bookkeeping
 	Hold bool `json:"hold,omitempty"`
+	// Intra: the open also carries the intra-proxy marker header (a peer proxy's stream - or anybody who sets it)
+	Intra bool `json:"intra,omitempty"`
 }
 
 type c20Case struct {
@@ -52,6 +54,9 @@ func c20MD(o c20Open) metadata.MD {
 		if vals != nil {
 			md.Set(c20Keys[i], vals...)
 		}
+	}
+	if o.Intra {
+		md.Set(common.IntraProxyHeaderKey, common.IntraProxyHeaderValue)
 	}
 	return md
 }
@@ -82,6 +87,9 @@ func c20NewWorld(c c20Case) *c20World {
 	ctx, cancel := context.WithCancel(context.Background())
 	obs := NewReplicationStreamObserver(vfNoop())
 	sm := NewShardManager(nil, scc, encryption.TLSConfig{}, lp)
+	if c.Mode == "routing" {
+		_ = sm.Start(ctx) // as ClusterConnection.Start does for a routing-mode connection (no memberlist section here)
+	}
 	w0 := &c20World{}
 	endAtOnce := func(_ context.Context, cs *vfClientStream) error {
 		cs.onCloseSend = func() { cs.PushEOF() }
@@ -203,6 +211,7 @@ func vfTrunc(s string, n int) string {
 }
 
 func c20Run(c c20Case) (err error, harness error) {
+	vfshared.MarkCurrent("C20", "random", c) // a crash on a goroutine the harness does not own leaves nothing else
 	w := c20NewWorld(c)
 	defer w.cancel()
 	var held []*c20Held
@@ -296,7 +305,7 @@ func c20Fail(t interface{ Fatalf(string, ...any) }, st *vfshared.Stats, part str
 	t.Fatalf("C20 violated: %v (replay %s)", err, p)
 }
 
-const c20Rule = "histories = 1-4 stream opens with arbitrary metadata (each of the four cluster/shard id keys: boundary integers incl. 238609294 = first value whose (idx+1)*9 overflows int32, random int32/int64, malformed strings, missing, duplicated) followed by 1-3 well-formed opens, in default / LCM / routing mode (LCM also with a shard count missing from the configuration, which start-up accepts: every open must then be rejected with an error, not crash), through the real StreamWorkflowReplicationMessages handler wired to a real ReplicationStreamObserver; oracle after every open: handler returned (no escaped panic), observer lock free (TryLock), no active stream listed, nothing left registered; follow-ups are served without error; non-trivial = some shard id >= 1024 (growth path), < 0 or non-numeric, followed by a well-formed open; distinct = distinct histories"
+const c20Rule = "histories = 1-4 stream opens with arbitrary metadata (optionally with the intra-proxy marker header; each of the four cluster/shard id keys: boundary integers incl. 238609294 = first value whose (idx+1)*9 overflows int32, random int32/int64, malformed strings, missing, duplicated) followed by 1-3 well-formed opens, in default / LCM / routing mode (LCM also with a shard count missing from the configuration, which start-up accepts: every open must then be rejected with an error, not crash), through the real StreamWorkflowReplicationMessages handler wired to a real ReplicationStreamObserver; oracle after every open: handler returned (no escaped panic), observer lock free (TryLock), no active stream listed, nothing left registered; follow-ups are served without error; non-trivial = some shard id >= 1024 (growth path), < 0 or non-numeric, followed by a well-formed open; distinct = distinct histories"
 
 func c20Nontrivial(c c20Case) bool {
 	if c.After == 0 {
@@ -391,6 +400,26 @@ func TestVF_C20_Boundary(t *testing.T) {
 			}
 		}
 	}
+	// the intra-proxy marker on a stream open (a peer proxy's stream, a mis-routed one, or anybody who sets the header):
+	// alone, and while an ordinary stream of the named server shard is open (so that shard is registered here)
+	for _, mode := range []struct {
+		m    string
+		l, r int32
+	}{{"default", 4, 4}, {"lcm", 4, 6}, {"routing", 4, 6}} {
+		ids := []string{"1", "2", "3", "0", "-1"}
+		for _, cc := range ids[:3] {
+			for _, cs := range ids {
+				for _, sc := range ids[:3] {
+					for _, ss := range ids {
+						o := c20Open{Intra: true, MD: [4][]string{{cc}, {cs}, {sc}, {ss}}}
+						run(c20Case{Mode: mode.m, L: mode.l, R: mode.r, Opens: []c20Open{o}, After: 1})
+						heldOpen := c20Open{Hold: true, MD: [4][]string{{sc}, {ss}, {"2"}, {"1"}}}
+						run(c20Case{Mode: mode.m, L: mode.l, R: mode.r, Opens: []c20Open{heldOpen, o}, After: 1})
+					}
+				}
+			}
+		}
+	}
 	done := true
 	st.Exhaustive = &done
 }
@@ -450,6 +479,9 @@ func TestVF_C20_Random(t *testing.T) {
 			}
 			if rapid.IntRange(0, 4).Draw(rt, "hold") == 0 {
 				o.Hold = true
+			}
+			if rapid.IntRange(0, 5).Draw(rt, "intra") == 0 {
+				o.Intra = true
 			}
 			c.Opens = append(c.Opens, o)
 		}
